@@ -500,6 +500,20 @@ def rule_other_containers_emptied(ctx, c, rule):
         early = [b for b in grows if b in fn.reach([0], avoid_edges=set(), avoid_blocks=[]) and any(
             (a, d, l) in none_true for a in [0] for d, l in [])]
         grow_before_check = [b for b in grows if any(fn.dominates(b, a) for a, _, _ in none_true)]
+        # what one cycle records must still be there when the next cycle's start phase looks it up: the list is emptied
+        # before anything is added in the same cycle, and after the lookups
+        looks = [b for b in fn.calls_re(r"::(contains|contains_key|get|remove|binary_search)$", cleanup=False)
+                 if has_origin(c.prov.of_operand(fn, fn.term(b)["args"][0]), kind="param", key=1, path_suffix=("." + name,))]
+        order_ok = all(any(fn.dominates(e, g) and e != g for e in empt) for g in grows) and \
+            all(any(fn.dominates(l, e) or not fn.dominates(e, l) for e in empt) for l in looks) and \
+            all(not any(fn.dominates(e, l) and not fn.on_cycle(e) for e in empt) for l in looks)
+        ctx.check(order_ok and bool(grows), rule, HC, fn.loc(empt[0]) if empt else fn.span,
+                  "`%s` is emptied after this cycle's lookups and before this cycle's additions (entries live exactly until the "
+                  "next cycle's start phase)" % name, "lookups %s < clear %s < additions %s" % (
+                      [fn.loc(b) for b in looks], [fn.loc(b) for b in empt], [fn.loc(b) for b in grows]),
+                  "an addition at %s is not preceded by the clear at %s (or a lookup follows the clear): ids recorded in this cycle are "
+                  "wiped before the next cycle can see them -- a DropCollect read one cycle before its StartCollect no longer "
+                  "suppresses the trace" % ([fn.loc(b) for b in grows], [fn.loc(b) for b in empt]), extra="other-order-" + name)
         ctx.check(ok and bool(empt) and not grow_before_check, rule, HC, fn.loc(empt[0]) if empt else fn.span,
                   "`%s` (%s) is emptied on every cycle past the reporter check, and is not grown before that check" % (name, f["ty"].split("<")[0].rsplit("::", 1)[-1]),
                   "cleared at %s, grown at %s" % ([fn.loc(b) for b in empt], [fn.loc(b) for b in grows]),
